@@ -54,6 +54,9 @@ Definition pow2_le16 (a : N) : bool :=
 Definition wf_int (i : intty) : bool :=
   pow2_le16 (isize i) && ((ialign i =? 1) || (ialign i =? isize i)).
 
+(* a native integer (enum tags are repr(tag) with a primitive tag type) *)
+Definition native (i : intty) : bool := (ialign i =? isize i) && negb (ibe i).
+
 (* a type usable as a length / tag: at most 8 bytes wide (wider ones are the known finding D15) *)
 Definition narrow (i : intty) : bool := isize i <=? 8.
 
@@ -63,14 +66,14 @@ Fixpoint wf (t : ty) : bool :=
   | TUnit => true
   | TInt i => wf_int i
   | TBool => true
-  | TCLike tag n d => wf_int tag && (1 <=? n) && (n <=? int_max tag + 1) && (d <? n)
+  | TCLike tag n d => wf_int tag && native tag && (1 <=? n) && (n <=? int_max tag + 1) && (d <? n)
   | TArr t _ => wf t && sized t
   | TVec t l => wf t && sized t && wf_int l
   | TStr l => wf_int l
   | TFlex t l => wf t && wf_int l
   | TStruct s fs => if s then wf_fields_sized fs else wf_fields_unsized fs
   | TEnum s tag d vs =>
-      wf_int tag && (1 <=? vlen vs) && (vlen vs <=? int_max tag + 1) && (d <? vlen vs)
+      wf_int tag && native tag && (1 <=? vlen vs) && (vlen vs <=? int_max tag + 1) && (d <? vlen vs)
       && wf_variants s vs
   end
 (* all fields sized *)
